@@ -39,6 +39,10 @@ pub struct Flow {
     pub read_start_delay_us: u64,
     pub writes: Vec<WOp>,
     pub reads: Vec<ROp>,
+    /// the receiver's per-stream window (used to place slice boundaries of vectored writes where
+    /// the flow-control credit runs out)
+    #[serde(default)]
+    pub window: u64,
 }
 
 #[derive(Serialize, Deserialize, Clone, Debug)]
@@ -99,6 +103,13 @@ fn gen_flow(rng: &mut Rng, window: u64, max_len: usize) -> Flow {
     let mut writes = Vec::new();
     let mut left = len;
     let style = rng.below(4);
+    // one flow in ten: the whole payload in vectored writes against a reader that starts late, so
+    // the credit of the first window runs out at one of the slice boundaries
+    let vectored_whole = rng.chance_pm(100) && len > 0;
+    if vectored_whole {
+        writes.push(WOp { n: len, mode: 3, pause_us: 0 });
+        left = 0;
+    }
     while left > 0 {
         let n = match style {
             0 => left,
@@ -110,7 +121,7 @@ fn gen_flow(rng: &mut Rng, window: u64, max_len: usize) -> Flow {
         let n = if writes.len() >= 200 { left } else { n };
         writes.push(WOp {
             n,
-            mode: rng.below(3) as u8,
+            mode: rng.below(4) as u8,
             pause_us: if rng.chance_pm(150) { rng.range(1, 20_000) } else { 0 },
         });
         left -= n;
@@ -123,7 +134,7 @@ fn gen_flow(rng: &mut Rng, window: u64, max_len: usize) -> Flow {
             pause_us: if rng.chance_pm(200) { rng.range(1, 30_000) } else { 0 },
         })
         .collect();
-    Flow { key: rng.next_u64(), len, read_start_delay_us: 0, writes, reads }
+    Flow { key: rng.next_u64(), len, read_start_delay_us: if vectored_whole { rng.range(20_000, 200_000) } else { 0 }, writes, reads, window }
 }
 
 pub fn gen_plan(seed: u64, faulty: bool, tier: Tier) -> Plan {
@@ -248,6 +259,51 @@ enum FlowResult {
     Bad(String, String), // class, detail
 }
 
+/// Cut points (relative to the chunk) for a vectored write of `chunk_len` bytes starting at stream
+/// offset `off`: where the receiver's window ends (with and without the 3-byte preamble counted)
+/// and one more derived from the flow key.
+fn vectored_cuts(flow: &Flow, off: usize, chunk_len: usize) -> Vec<usize> {
+    let mut cuts = Vec::new();
+    let w = flow.window as usize;
+    if w > 0 {
+        for pre in [3usize, 0, 4, 6, 10] {
+            // credit boundaries repeat every window once the reader keeps up; the first one matters most
+            if w > pre + off && w - pre - off < chunk_len {
+                cuts.push(w - pre - off);
+            }
+        }
+    }
+    if chunk_len > 1 {
+        cuts.push(1 + (mix(&[flow.key, off as u64]) as usize) % (chunk_len - 1));
+    }
+    cuts.sort();
+    cuts.dedup();
+    cuts.truncate(3);
+    cuts
+}
+
+async fn write_vectored_all<W: tokio::io::AsyncWrite + Unpin>(w: &mut W, chunk: &[u8], cuts: &[usize]) -> Result<(), String> {
+    let mut done = 0usize;
+    while done < chunk.len() {
+        // the slices of what is left, cut at the same absolute positions
+        let mut bounds: Vec<usize> = cuts.iter().copied().filter(|c| *c > done && *c < chunk.len()).collect();
+        bounds.push(chunk.len());
+        let mut slices = Vec::new();
+        let mut start = done;
+        for b in bounds {
+            slices.push(std::io::IoSlice::new(&chunk[start..b]));
+            start = b;
+        }
+        match AsyncWriteExt::write_vectored(w, &slices).await {
+            Ok(0) => return Err("write_vectored returned 0".into()),
+            Ok(n) if done + n > chunk.len() => return Err(format!("write_vectored returned {n} for {} bytes offered", chunk.len() - done)),
+            Ok(n) => done += n,
+            Err(e) => return Err(format!("{e:?}")),
+        }
+    }
+    Ok(())
+}
+
 async fn write_flow(send: &mut SendStream, flow: &Flow) -> Result<(), FlowResult> {
     let data = pattern(flow.key, flow.len);
     let mut off = 0;
@@ -273,6 +329,7 @@ async fn write_flow(send: &mut SendStream, flow: &Flow) -> Result<(), FlowResult
                 r
             }
             1 => send.write_all(chunk).await.map_err(|e| format!("{e:?}")),
+            3 => write_vectored_all(send, chunk, &vectored_cuts(flow, off, chunk.len())).await,
             _ => AsyncWriteExt::write_all(send, chunk).await.map_err(|e| format!("{e:?}")),
         };
         if let Err(e) = res {
@@ -312,6 +369,8 @@ async fn write_flow_io<W: tokio::io::AsyncWrite + Unpin>(w: &mut W, flow: &Flow)
                 }
             }
             r
+        } else if op.mode == 3 {
+            write_vectored_all(w, chunk, &vectored_cuts(flow, off, chunk.len())).await
         } else {
             AsyncWriteExt::write_all(w, chunk).await.map_err(|e| format!("{e:?}"))
         };
@@ -1014,7 +1073,7 @@ pub fn def() -> PropertyDef {
             Box::new(Typed(C01E2E { faulty: true })),
             Box::new(Typed(C01Raw)),
         ],
-        rule: "Each run: real wtransport client and server over the simulated network, 1-12 concurrent streams over the roles {client,server} x {uni, bidi (both directions)}, payload lengths boundary-biased from 0 to 3 flow-control windows (windows are per-run knobs), generated write partitions (write / write_all / tokio AsyncWrite) and read partitions (read / read_exact / tokio AsyncRead, buffers 1 B..64 KiB) with pauses, a third of the bidirectional streams joined into a BiStream on either side and used through tokio's AsyncRead / AsyncWrite, optional 1-3 byte short-read cap on protocol-level reads; the fault batch adds loss / duplication / reordering / corruption for the first 30 s plus 0-3 scripted link events: two-way or one-way partitions of 20 ms-4 s that heal, inbound stalls of 5-400 ms at either node, NAT rebinds of the client. A run is non-trivial when the session was established, at least one flow was verified byte-for-byte to end-of-stream with >0 bytes and (fault sub-batch) at least one network fault fired; distinct = distinct plan hashes among those. raw-preamble-segmentation: the scripted raw peer (both roles; against the server the session id is 0, 4, 8, 60, 64, 252, 256 or 1200 - the CONNECT stream follows 0-300 burnt streams) opens 1-4 WebTransport uni / bidi streams whose preamble (type / signal + session id encoded on 1, 2, 4 or 8 bytes) and payload (0..5000 B) are written in 1-4 pieces with network quiescence between the pieces (cuts mostly inside the preamble), optionally under the short-read cap; the application must read exactly the payload of every stream and be handed nothing else.",
+        rule: "Each run: real wtransport client and server over the simulated network, 1-12 concurrent streams over the roles {client,server} x {uni, bidi (both directions)}, payload lengths boundary-biased from 0 to 3 flow-control windows (windows are per-run knobs), generated write partitions (write / write_all / tokio AsyncWrite incl. vectored writes whose slice boundaries sit where the receiver's window ends) and read partitions (read / read_exact / tokio AsyncRead, buffers 1 B..64 KiB) with pauses, a third of the bidirectional streams joined into a BiStream on either side and used through tokio's AsyncRead / AsyncWrite, optional 1-3 byte short-read cap on protocol-level reads; the fault batch adds loss / duplication / reordering / corruption for the first 30 s plus 0-3 scripted link events: two-way or one-way partitions of 20 ms-4 s that heal, inbound stalls of 5-400 ms at either node, NAT rebinds of the client. A run is non-trivial when the session was established, at least one flow was verified byte-for-byte to end-of-stream with >0 bytes and (fault sub-batch) at least one network fault fired; distinct = distinct plan hashes among those. raw-preamble-segmentation: the scripted raw peer (both roles; against the server the session id is 0, 4, 8, 60, 64, 252, 256 or 1200 - the CONNECT stream follows 0-300 burnt streams) opens 1-4 WebTransport uni / bidi streams whose preamble (type / signal + session id encoded on 1, 2, 4 or 8 bytes) and payload (0..5000 B) are written in 1-4 pieces with network quiescence between the pieces (cuts mostly inside the preamble), optionally under the short-read cap; the application must read exactly the payload of every stream and be handed nothing else.",
         assumptions: vec![
             "quinn, quinn-proto, rustls, ring and tokio are executed for real but trusted: a QUIC-level data loss would be attributed to wtransport until triaged",
             "parallelism is modelled as interleaving at await points on a current-thread runtime; data races inside tokio/quinn primitives are out of scope",
